@@ -221,6 +221,38 @@ Example C09_acting_callbacks :
   sn_completed (snap later) = sn_completed (snap lost) /\ sn_ran (snap later) = sn_ran (snap lost).
 Proof. vm_compute. repeat split; reflexivity. Qed.
 
+(* Proxies created while the loss is handled ([AMkProxy]: a callback calls getRemoteObject with explicit
+   interfaces on the dying connection and may register a callback on the new proxy).  C09_loss_reentrant
+   holds unchanged for assignments with such actions; spelled out for the proxy-level callbacks: the ones
+   that run are exactly those on the proxies that exist when the connection-level callbacks have finished
+   ([conn_phase]), with the lists they have then, and they run with the loss reason.  Hence a proxy
+   created by a CONNECTION-level callback is notified (it is in _weakProxies before the snapshot of the
+   proxies is taken); a proxy created by a PROXY-level callback is not - whatever is registered on it never
+   runs ([quiet]) - and creating it disturbs nothing: the other proxies are told, the calls are failed. *)
+Theorem C09_loss_reentrant_proxy_creation :
+  forall acts addr serial0 pre r q cb r',
+    st_phase (run_re acts addr serial0 pre) = Ready ->
+    (In (OProxy q, cb, r') (sn_ran (snap (run_re acts addr serial0 (pre ++ [ECalls (ELost r)])))) <->
+     r' = r /\ exists p, In p (st_objs (conn_phase acts (set_open (run_re acts addr serial0 pre) false) r)) /\
+                         po_req p = q /\ In cb (po_cbs p)).
+Proof. exact proxy_callback_ran_iff. Qed.
+
+(* Non-vacuity: proxies 0 and 1 exist, a call with a deadline is pending.  Connection-level callback 40
+   creates proxy 2 with callback 71; proxy-level callback 50 (on proxy 0) creates proxy 3 with callback 72.
+   At the loss: 40, then 50 on proxy 0, 21 on proxy 1 and 71 on the new proxy 2 run; 72 does not; both new
+   proxies exist afterwards; the pending call has failed with the reason, nothing is left armed. *)
+Example C09_proxies_created_during_loss :
+  let acts := table_assignment [ (40, [AMkProxy 5 (Some 71)]); (50, [AMkProxy 6 (Some 72)]) ] in
+  let pre := [ EEpOk; EAuthOk; hello_reply 7; ECalls (ECall CkNormal (Some 5) RsNoCheck);
+               EGetObject PkExplicit 1; EGetObject PkExplicit 2; EReg (OProxy 0) 50; EReg (OProxy 1) 21;
+               EReg OConn 40 ] in
+  let lost := run_re acts [AUnix] 7 (pre ++ [ECalls (ELost 2)]) in
+  sn_ran (snap lost) = [(OConn, 40, 2); (OProxy 0, 50, 2); (OProxy 1, 21, 2); (OProxy 2, 71, 2)] /\
+  map po_req (st_objs lost) = [0; 1; 2; 3]%nat /\
+  sn_completed (snap lost) = [(0%nat, OValue (Some (VStr [58; 49; 46; 53]))); (1%nat, OLost 2)] /\
+  sn_outstanding (snap lost) = [] /\ sn_timers (snap lost) = [].
+Proof. vm_compute. repeat split; reflexivity. Qed.
+
 (* ---- calls whose Deferred the caller has cancelled ------------------------------------------------
 
    [run_c acts] runs histories that may also contain [CCancel i]: the caller calls .cancel() on the
